@@ -55,4 +55,23 @@ structure RecoverOk (A : UtxoAlg) (active acked : List Chain) (o : Observed A) :
   utxo_fold   : o.utxo = utxoOf A o.tip
   index_knows : ∀ n, n ∈ acked → n ∈ o.index
 
+/-! ### Persisted-state vocabulary (pinned against the compiled tree in Props) -/
+
+/-- Metadata buckets/keys of the chain state: block index rows, hash→height,
+height→hash, best state, utxo consistency marker, journal version, spend
+journal, utxo set version, utxo set. -/
+def Const.names : List String :=
+  ["blockheaderidx", "hashidx", "heightidx", "chainstate", "utxostateconsistency",
+   "spendjournalversion", "spendjournal", "utxosetversion", "utxosetv2"]
+
+/-- `statusDataStored, statusValid, statusValidateFailed, statusInvalidAncestor, statusHeaderStored`. -/
+def Const.statusDataStored : Nat := 1
+def Const.statusValid : Nat := 2
+def Const.statusValidateFailed : Nat := 4
+def Const.statusInvalidAncestor : Nat := 8
+def Const.statusHeaderStored : Nat := 16
+
+/-- `FlushRequired, FlushPeriodic, FlushIfNeeded`. -/
+def Const.flushModes : List Int := [0, 1, 2]
+
 end BV.C04
